@@ -54,7 +54,7 @@ def one(seed_dir):
 def main():
     flt = [a for a in sys.argv[1:] if not a.startswith("--")]
     seeds = sorted(p for p in (ROOT / "seeded").iterdir() if (p / "patch.diff").exists() and (not flt or any(f in p.name for f in flt)))
-    with cf.ProcessPoolExecutor(12) as ex:
+    with cf.ProcessPoolExecutor(16) as ex:
         results = list(ex.map(one, seeds))
     rows = []
     missed = []
